@@ -419,13 +419,23 @@ func c06NewNode(addr boson.Address, streamer p2p.Streamer) *c06Node {
 
 var c06Modes = []string{"from-node", "targets-1", "chunkinfo-route", "two-hop", "targets-2"}
 
+// State of the local stores (client and forwarder) with respect to the
+// requested chunk: absent; the honest chunk already present before the request
+// (e.g. fetched for another root - singleflight keys contain the root/target, so
+// such requests are not merged); a different chunk present; the honest chunk
+// arriving in the store while the request is in flight (put right before the
+// adversary's first reply is delivered). In two-hop mode "present-before" and
+// "arrives-in-flight" concern both nodes; "present-at-client-only" is extra.
+var c06StoreStates = []string{"absent", "present-before", "other-chunk-present", "arrives-in-flight"}
+
 func TestVerifC06(t *testing.T) {
 	geom := fmt.Sprintf("branches=%d", boson.Branches)
-	maxReplies := mc.Pick(3, 4)
+	maxReplies := mc.Pick(2, 4)
 	mc.Run(t, mc.Config{ID: "C06", Name: "C06-retrieval-" + geom, MaxDev: -1, Params: map[string]interface{}{
 		"geometry":      geom,
 		"targets":       "cac-small, cac-full, cac-intermediate, cac-zero-tail, soc",
 		"modes":         c06Modes,
+		"store_states":  c06StoreStates,
 		"first_reply":   "honest; truncate to {0,1,7,8,9,96,97,104,105,len-1}; append 00/01/32 zero/32 non-zero; zero-extend to capacity, capacity+1, capacity+1 with non-zero last, capacity+105; every single-byte flip with masks {01,80} (all positions up to 260 bytes, else a boundary grid); every other target's chunk; SOC wrapping the requested CAC / SOC variants (inner only, other owner, other id, other payload); empty Delivery; close without reply",
 		"later_replies": "honest, flip of last byte, another valid chunk, close without reply",
 		"max_replies":   maxReplies,
@@ -436,10 +446,15 @@ func TestVerifC06(t *testing.T) {
 		first, later := firsts[ti], laters[ti]
 		ri := x.Choose(len(first))
 		mode := c06Modes[x.Choose(len(c06Modes))]
+		states := c06StoreStates
+		if mode == "two-hop" {
+			states = append(append([]string{}, c06StoreStates...), "present-at-client-only")
+		}
+		storeState := states[x.Choose(len(states))]
 		tgt := ts[ti]
 		a := boson.NewAddress(tgt.addr)
 		root := boson.MustParseHexAddress("3300")
-		x.Logf("request %s (%d bytes) mode %s", tgt.name, len(tgt.data), mode)
+		x.Logf("request %s (%d bytes) mode %s, local store: %s", tgt.name, len(tgt.data), mode, storeState)
 
 		clientAddr := boson.MustParseHexAddress("c1c1c1c1")
 		fwdAddr := boson.MustParseHexAddress("f0f0f0f0")
@@ -458,6 +473,26 @@ func TestVerifC06(t *testing.T) {
 			clientRec = streamtest.New(streamtest.WithProtocols(adv.protocol()), streamtest.WithBaseAddr(clientAddr), streamtest.WithMiddlewares(c06JoinMW(&wg)))
 		}
 		client = c06NewNode(clientAddr, &c06Streamer{clientRec, &wg})
+		// pre-existing store content goes straight into the underlying store (not a Put of the service under test)
+		preload := func(t c06Target, nodes ...*c06Node) {
+			if len(nodes) == 0 {
+				nodes = []*c06Node{client, fwd}
+			}
+			for _, n := range nodes {
+				if n != nil {
+					_, err := n.store.MockStorer.Put(context.Background(), storage.ModePutUpload, boson.NewChunk(boson.NewAddress(t.addr), append([]byte{}, t.data...)))
+					x.NoErr(err, "preload")
+				}
+			}
+		}
+		switch storeState {
+		case "present-before":
+			preload(tgt)
+		case "present-at-client-only":
+			preload(tgt, client)
+		case "other-chunk-present":
+			preload(ts[(ti+1)%len(ts)])
+		}
 
 		type result struct {
 			ch  boson.Chunk
@@ -500,6 +535,9 @@ func TestVerifC06(t *testing.T) {
 				switch {
 				case nReplies == 0:
 					rep = first[ri]
+					if storeState == "arrives-in-flight" {
+						preload(tgt)
+					}
 				case nReplies < maxReplies:
 					rep = later[x.Choose(len(later))]
 				default:
@@ -545,6 +583,22 @@ func TestVerifC06(t *testing.T) {
 			return len(n.store.puts)
 		}
 		nput := checkPuts("client", client)
+		// whatever the stores hold under the requested address at the end must be valid too
+		for _, wn := range []struct {
+			who string
+			n   *c06Node
+		}{{"client", client}, {"forwarder", fwd}} {
+			who, n := wn.who, wn.n
+			if n == nil {
+				continue
+			}
+			if ch, err := n.store.MockStorer.Get(context.Background(), storage.ModeGetRequest, a); err == nil && !chunkref.Valid(tgt.addr, ch.Data()) {
+				x.Fail("store-holds-invalid-chunk-"+who, "%s's store holds %d invalid bytes under %x", who, len(ch.Data()), tgt.addr)
+			}
+		}
+		if nReplies == 0 {
+			x.Tag("served-without-asking-the-peer")
+		}
 		if fwd != nil {
 			nput += checkPuts("forwarder", fwd)
 			// what the forwarder handed to the requesting peer
@@ -572,12 +626,12 @@ func TestVerifC06(t *testing.T) {
 			if !res.ch.Address().Equal(a) || !chunkref.Valid(tgt.addr, res.ch.Data()) {
 				x.Fail("returned-invalid-chunk", "RetrieveChunk returned %d bytes for %x: neither a valid CAC nor a valid SOC for that address (last reply above)", len(res.ch.Data()), tgt.addr)
 			}
-			x.Outcome(fmt.Sprintf("accepted/puts=%d/credits=%d", nput, client.acct.credit))
+			x.Outcome(fmt.Sprintf("%s: accepted/replies=%d/puts=%d/credits=%d", storeState, nReplies, nput, client.acct.credit))
 		} else {
 			if anyValid {
 				x.Tag("valid-reply-yet-error")
 			}
-			x.Outcome(fmt.Sprintf("rejected/puts=%d/credits=%d", nput, client.acct.credit))
+			x.Outcome(fmt.Sprintf("%s: rejected/replies=%d/puts=%d/credits=%d", storeState, nReplies, nput, client.acct.credit))
 		}
 		if !anyValid {
 			// informational (not demanded by the statement): nothing is credited or announced for invalid data
